@@ -225,6 +225,20 @@ fn grid_job<Q: QueueLike>(n: usize, pat: usize) -> Result<JobOut, String> {
         }
     }
     // bulk operations that re-establish order
+    {
+        // retain rejecting the upper / lower half of the priorities (interior nodes resp. leaves)
+        let mut sorted = prios.clone();
+        sorted.sort();
+        let median = sorted[n / 2];
+        let mut a: Q = Q::q_from_vec(mk_vec(0));
+        bulk!("retain (reject the upper half)", n, a.q_retain(|_, p| p.v < median));
+        let mut a: Q = Q::q_from_vec(mk_vec(0));
+        bulk!("retain (reject the lower half)", n, a.q_retain(|_, p| p.v >= median));
+        let mut a: Q = Q::q_from_vec(mk_vec(0));
+        bulk!("retain_mut (reject the upper half)", n, a.q_retain_mut(|_, p| p.v < median));
+        let mut a: Q = Q::q_from_vec(mk_vec(0));
+        bulk!("retain (reject all but one)", n, a.q_retain(|i, _| i.key == 0));
+    }
     let len = q.q_len();
     bulk!("retain (keep every other)", len, q.q_retain(|i, _| i.key % 2 == 0));
     let len = q.q_len();
@@ -327,16 +341,22 @@ pub fn run_c05(tier: Tier) -> Outcome {
         cfg.record_costs = true;
         cfg.deep = false;
         let t0 = Instant::now();
-        let ex = Explorer::<H>::new(&cfg);
+        let mut ex = Explorer::<H>::new(&cfg);
+        for p in crate::probes::all_probes::<H>("C05", &cfg.universe()) {
+            ex.probes.push(p);
+        }
         ex.run_closed();
-        out.absorb(&format!("E1 closed ({k} items x {m} priorities): comparison count of every transition"), &ex, t0);
+        out.absorb(&format!("E1 closed ({k} items x {m} priorities): comparison count of every transition; peeks and lookups from every state"), &ex, t0);
+        if !out.violations.is_empty() {
+            return out;
+        }
         merge(&ex);
     }
     let mut fams: Vec<(String, usize, Vec<Root>, Vec<i32>)> = vec![];
     for n in if q { vec![7usize, 8, 9, 10] } else { vec![7, 8, 9, 10, 11, 12, 13, 14] } {
         fams.push((format!("F_bin({n})"), n, f_bin(n), REL_BIN.to_vec()));
     }
-    for n in if q { vec![15usize, 16, 17] } else { vec![15, 16, 17, 31, 32, 33, 63, 64, 65] } {
+    for n in if q { vec![15usize, 16, 17] } else { vec![15, 16, 17, 31, 32, 33] } {
         fams.push((format!("F_seg({n})"), n, f_seg(n), REL_TERN.to_vec()));
     }
     for n in if q { vec![5usize, 6] } else { vec![5, 6, 7, 8] } {
